@@ -4,9 +4,11 @@
 #include <stdio.h>
 #include <stdlib.h>
 #include <string.h>
+#include <regex>
 #include <sstream>
 
 RunOut *g_out = nullptr;
+std::vector<std::pair<string, string>> g_known;
 
 const char *opkind_name[] = {"put", "del", "write", "get", "has", "snap", "release", "iter_new", "iter_op", "iter_free", "flush",
                              "compact_range", "compact", "approx", "property", "reopen", "backup", "kill_restart", "sweep",
@@ -16,6 +18,15 @@ const char *iterop_name[] = {"first", "last", "seek", "seek_ge", "seek_gt", "see
 void violation(const char *prop, const char *cls, const char *fmt, ...) {
   char b[1024];
   va_list ap; va_start(ap, fmt); vsnprintf(b, sizeof b, fmt, ap); va_end(ap);
+  if (!g_known.empty()) {
+    string pc = string(prop) + "." + cls;
+    for (auto &k : g_known)
+      if (k.first == pc && (k.second.empty() || std::regex_search(string(b), std::regex(k.second)))) {
+        if (g_out->known.size() < 8) g_out->known.push_back({prop, cls, b});
+        g_out->probes["known:" + pc]++;
+        return;
+      }
+  }
   if (g_out->viol.size() < 8) g_out->viol.push_back({prop, cls, b});
 }
 
